@@ -10,14 +10,11 @@ set_option linter.unusedSimpArgs false
 
 namespace Pypyr.Format
 
-/-- A field without `rf`, outside a recursive format, stands for the referenced object as it is. -/
-theorem fieldObj_flat (deep : Bool → Val → Except Exc Val) (ctx : Ctx) (f : FieldT) (h : Spec.isRf f.spec = false) :
-    Spec.fieldObj deep ctx false f =
-      (match getField ctx f.name with
-       | .error e => .error e
-       | .ok obj => convertField obj f.conv) := by
-  simp only [Spec.fieldObj, h, bind, Except.bind, pure, Except.pure]
-  cases getField ctx f.name <;> simp
+/-- A field without `rf`, outside a recursive format, never consults the recursive formatter. -/
+theorem fieldObj_flat (deep₁ deep₂ : Bool → Val → Except Exc Val) (ctx : Ctx) (f : FieldT)
+    (h : Spec.isRf f.spec = false) :
+    Spec.fieldObj deep₁ ctx false f = Spec.fieldObj deep₂ ctx false f := by
+  simp only [Spec.fieldObj, h, Bool.false_and, Bool.or_false, Bool.false_eq_true, if_false]
 
 theorem resolve_flat (deep₁ deep₂ : Bool → Val → Except Exc Val) (ctx : Ctx) (ps : List Part)
     (h : ∀ f, Part.fld f ∈ ps → Spec.isRf f.spec = false) :
@@ -29,7 +26,7 @@ theorem resolve_flat (deep₁ deep₂ : Bool → Val → Except Exc Val) (ctx : 
     cases p with
     | lit t => simp only [Spec.resolve, ih']
     | fld f =>
-      simp only [Spec.resolve, ih', fieldObj_flat deep₁ ctx f (h f (by simp)), fieldObj_flat deep₂ ctx f (h f (by simp))]
+      simp only [Spec.resolve, ih', fieldObj_flat deep₁ deep₂ ctx f (h f (by simp))]
 
 /-- chunks that are text, `{{` or `}}` only -/
 def LiteralOnly (chunks : List Chunk) : Prop := ∀ c ∈ chunks, (∃ cs, c = .text cs ∧ NoBrace cs) ∨ c = .lbrace ∨ c = .rbrace
